@@ -24,7 +24,7 @@ EXPECTED_PROBES = ['client_first', 'server_first', 'crossing',
                    'close_before_ready', 'second_close', 'send_refused',
                    'sent_inside_closing', 'app_close_inside_closing',
                    'message_between_closes', 'empty_close_payload',
-                   'after_bad_close_on_earlier_connection']
+                   'after_bad_close_on_earlier_connection', 'close_write_failed']
 
 CODES = [1000, 1001, 1002, 1003, 1007, 1008, 1009, 1010, 1011, 3000, 4999]
 
@@ -107,6 +107,11 @@ def make_case(family, i, rng, tier):
                        {'op': 'close', 'code': rng.choice([1000, 1001, 4000]),
                         'reason': 'app says bye'})
         case['in_closing'] = ops
+    if kind == 'client_first' and rng.random() < 0.12:
+        # the write carrying the Close fails without killing the connection
+        # (time-out / arbitrary error): the websocket must still be closing
+        case['close_write_fails'] = rng.choice(['timeout', 'exc'])
+        case['send_everywhere'] = True
     if rng.random() < 0.15:
         # an earlier connection on the same object that ended badly around a
         # Close frame; nothing of it may influence the handshake under test
@@ -163,6 +168,10 @@ def build(case):
     sc = ST.stream_scenario(case, enc, tail, app=app,
                             connect={'ping_rate': 0, 'poll': 5,
                                      'close_timeout': 30})
+    if case.get('close_write_fails'):
+        sc['conns'][0]['faults'] = [{'op': 'sendall', 'first_byte': 0x88,
+                                     'kind': case['close_write_fails']}]
+        sc['connect']['close_timeout'] = 2
     pre = case.get('prelude')
     if pre:
         fr = {'close_truncated_reason': peer.enc_frame(8, b'\x03\xe8caf\xc3'),
@@ -228,6 +237,32 @@ def execute(case):
     disc = [e for e in tr.events if e.name == 'disconnected']
     sclose = case['sclose']
 
+    if case.get('close_write_fails'):
+        # nothing of the Close reached the wire; from the close() call on the
+        # application must be refused, whatever the transport did
+        res.stats['probe:close_write_failed'] += 1
+        cl = [c for c in tr.calls if c.op == 'close']
+        if cl:
+            t_close = cl[0].seq
+            for c in tr.calls:
+                if c.op != 'close' and c.seq > t_close and (
+                        c.outcome == 'ok' or c.wrote):
+                    res.bad('C08/client_first/send_accepted_after_failed_close',
+                            '%s accepted (wrote %d bytes) after close() whose '
+                            'write failed with %s' % (c.op, c.wrote,
+                                                      case['close_write_fails']))
+                    break
+        if len(closes) > 1:
+            res.bad('C08/client_first/two_closes_after_failed_close', '')
+        for k, m in oracle.trace_sanity(tr):
+            if k in ('hang', 'escaped'):
+                res.bad('C08/client_first/%s' % k, m)
+        res.nontrivial = bool(cl)
+        res.sig = 'close_write_fails|%s|%s' % (case['close_write_fails'],
+                                               (ac or {}).get('at'))
+        res.sample = {'kind': kind, 'close_write_fails':
+                      case['close_write_fails'], 'events': names[:12]}
+        return res
     if kind in ('client_first', 'crossing'):
         if ac['at'].get('name') == 'connected':
             res.stats['probe:close_before_ready'] += 1
